@@ -449,5 +449,26 @@ func c08(r *mon.Run) {
 			}
 			t.Nontrivial("go:" + strconv.Itoa(i))
 		}}
-	r.Exec(main, nonArr, two, zero, pn, gow)
+	// slices of arrays that another construct hands over (parenthesis, pipe, multi-select, not_null, ||, projection, flatten, map,
+	// to_array, a double reverse ...): the same Python selection applies to whatever list the construct yields; the list holds a
+	// null and a nested list, so constructs that copy (and drop nulls or flatten) yield a list of another length than the member
+	pprods := argProducers()
+	pvals := window(5, 1)
+	PV := len(pvals)
+	psl := mon.Workload{Name: "slices-of-arrays-produced-by-other-constructs", N: len(pprods) * PV * PV * PV, Batch: 5000,
+		Do: func(i int, t *mon.Tally) {
+			pi, k := i/(PV*PV*PV), i%(PV*PV*PV)
+			a, b, c := pvals[k/(PV*PV)], pvals[k/PV%PV], pvals[k%PV]
+			if (k+pi)%3 != 0 && r.Tier != "thorough" {
+				return
+			}
+			doc := map[string]interface{}{"a": []interface{}{float64(0), float64(1), nil, []interface{}{float64(3)}, float64(4)}, "z": nil, "ao": []interface{}{}}
+			tree := gen.Chain(pprods[pi](gen.Field("a")), gen.StSliceS(a, b, c))
+			cx := &caseCtx{r, t, "slices-of-arrays-produced-by-other-constructs", i}
+			res, _, _ := cx.runOne(tree, gen.SpellTight(tree), doc)
+			if nonNull(res) {
+				t.NontrivialDistinct(1)
+			}
+		}}
+	r.Exec(main, nonArr, two, zero, pn, gow, psl)
 }
